@@ -346,6 +346,14 @@ var (
 // If the conversion fails due to overflow or type miss-match then it panics.
 // If no conversion is known then the original value is returned.
 func (rt *runtime) convertCallParameter(v Value, t reflect.Type) (reflect.Value, error) {
+	return rt.convertCallParameterPath(v, t, map[*object]struct{}{})
+}
+
+// convertCallParameterPath is convertCallParameter with the set of script objects currently being
+// converted: an object that contains itself (o.Self = o), converted to a Go type that can contain
+// itself (type Node struct{ Self *Node }), or whose toString returns the object, is an error
+// instead of a recursion without end.
+func (rt *runtime) convertCallParameterPath(v Value, t reflect.Type, path map[*object]struct{}) (reflect.Value, error) {
 	if t == typeOfValue {
 		return reflect.ValueOf(v), nil
 	}
@@ -401,7 +409,7 @@ func (rt *runtime) convertCallParameter(v Value, t reflect.Type) (reflect.Value,
 			return reflect.Zero(t), nil
 		default:
 			var vv reflect.Value
-			vv, err := rt.convertCallParameter(v, t.Elem())
+			vv, err := rt.convertCallParameterPath(v, t.Elem(), path)
 			if err != nil {
 				return reflect.Zero(t), fmt.Errorf("can't convert to %s: %w", t, err)
 			}
@@ -414,6 +422,14 @@ func (rt *runtime) convertCallParameter(v Value, t reflect.Type) (reflect.Value,
 			pv.Elem().Set(vv)
 			return pv, nil
 		}
+	}
+
+	if o := v.object(); o != nil {
+		if _, cyclic := path[o]; cyclic {
+			return reflect.Zero(t), fmt.Errorf("can't convert a cyclic %s to %s", o.class, t)
+		}
+		path[o] = struct{}{}
+		defer delete(path, o)
 	}
 
 	switch tk {
@@ -443,7 +459,7 @@ func (rt *runtime) convertCallParameter(v Value, t reflect.Type) (reflect.Value,
 						// [[Get]]: a hole (or an inherited or accessor element) reads as a script reads it.
 						e := o.get(strconv.FormatInt(i, 10))
 
-						ev, err := rt.convertCallParameter(e, tt)
+						ev, err := rt.convertCallParameterPath(e, tt, path)
 						if err != nil {
 							return reflect.Zero(t), fmt.Errorf("couldn't convert element %d of %s: %w", i, t, err)
 						}
@@ -475,7 +491,7 @@ func (rt *runtime) convertCallParameter(v Value, t reflect.Type) (reflect.Value,
 							continue
 						}
 
-						ev, err := rt.convertCallParameter(e, tt)
+						ev, err := rt.convertCallParameterPath(e, tt, path)
 						if err != nil {
 							return reflect.Zero(t), fmt.Errorf("couldn't convert element %d of %s: %w", i, t, err)
 						}
@@ -494,7 +510,7 @@ func (rt *runtime) convertCallParameter(v Value, t reflect.Type) (reflect.Value,
 			var err error
 
 			o.enumerate(false, func(k string) bool {
-				v, verr := rt.convertCallParameter(o.get(k), t.Elem())
+				v, verr := rt.convertCallParameterPath(o.get(k), t.Elem(), path)
 				if verr != nil {
 					err = fmt.Errorf("couldn't convert property %q of %s: %w", k, t, verr)
 					return false
@@ -568,7 +584,7 @@ func (rt *runtime) convertCallParameter(v Value, t reflect.Type) (reflect.Value,
 					ss = ss.Field(i)
 				}
 
-				v, err := rt.convertCallParameter(o.get(k), ss.Type())
+				v, err := rt.convertCallParameterPath(o.get(k), ss.Type(), path)
 				if err != nil {
 					return reflect.Zero(t), fmt.Errorf("couldn't convert property %q of %s: %w", k, t, err)
 				}
@@ -588,7 +604,7 @@ func (rt *runtime) convertCallParameter(v Value, t reflect.Type) (reflect.Value,
 					return reflect.Zero(t), fmt.Errorf("couldn't call toString: %w", err)
 				}
 
-				r, err := rt.convertCallParameter(sv, t)
+				r, err := rt.convertCallParameterPath(sv, t, path)
 				if err != nil {
 					return reflect.Zero(t), fmt.Errorf("couldn't convert toString result: %w", err)
 				}
